@@ -12,7 +12,7 @@ from ..harness import World, execute, place_summary, probe, violation
 LEVEL = "fault_enumeration"
 PLAN = {
     "quick": {"mem": 16, "redis": 16, "rabbit": 16},
-    "thorough": {"mem": 160, "redis": 160, "rabbit": 160},
+    "thorough": {"mem": 64, "redis": 64, "rabbit": 64},
 }
 BUDGET = {"quick": 55, "thorough": 1500}
 RULE = (
